@@ -214,14 +214,21 @@ def set_ifm_ofm_op_shapes(op, arch, nng):
 def move_splitsliceread_to_consumer(op, cons_op):
     assert op.type == Op.SplitSliceRead
 
+    def compose(idx):
+        # The consumer may already read a slice of op.ofm (a slice of a slice): its offset is relative to op.ofm and
+        # has to be added to the offset of op.ofm within op.ifm; the shape that is read stays that of the inner slice
+        if cons_op.read_offsets[idx] is not None and op.read_offsets[0] is not None:
+            cons_op.read_offsets[idx] = op.read_offsets[0] + cons_op.read_offsets[idx]
+        else:
+            cons_op.read_offsets[idx] = op.read_offsets[0]
+            cons_op.read_shapes[idx] = op.read_shapes[0]
+
     if cons_op.ifm == op.ofm:
-        cons_op.read_offsets[0] = op.read_offsets[0]
-        cons_op.read_shapes[0] = op.read_shapes[0]
+        compose(0)
         cons_op.set_input_tensor(op.ifm, cons_op.type.info.indices.ifms[0])
         cons_op.ifm_shapes[0] = op.ifm_shapes[0]
     elif cons_op.type.is_binary_elementwise_op() and cons_op.ifm2 == op.ofm:
-        cons_op.read_offsets[1] = op.read_offsets[0]
-        cons_op.read_shapes[1] = op.read_shapes[0]
+        compose(1)
         cons_op.set_input_tensor(op.ifm, cons_op.type.info.indices.ifms[1])
         cons_op.ifm_shapes[1] = op.ifm_shapes[0]
     op.ofm.consumer_list.remove(cons_op)
